@@ -102,6 +102,12 @@ func runAliasMode(seed int64, n int, tr *transcript) {
 			}
 			for step := 0; step < 60; step++ {
 				lit := u.next(r)
+				if r.Intn(4) == 0 {
+					// keys around the sizes where small-buffer optimisations change path (2^6, 2^8)
+					tail := bytes.Repeat([]byte{'k'}, pick(r, []int{50, 62, 63, 64, 65, 100, 255, 256, 300}))
+					lit = hexLit(append(unhex(lit), tail...))
+					tr.stats["alias-long-keys"]++
+				}
 				if len(present) > 0 && r.Intn(3) == 0 {
 					for k := range present {
 						lit = k
